@@ -132,7 +132,9 @@ func (c02) Generate(prop string, r *simrt.RNG, tier string, run int) *simrt.Scen
 		mode := int64(c & 1)
 		cache := int64([]int{0, 0, 1, 4, 32}[r.Intn(5)])
 		hOff := int64([]int{0, 0, 1, 7, 1000, 123456}[r.Intn(6)])
-		hStride := int64([]int{1, 1, 2, 0}[r.Intn(4)])   // 0: every batch at the same height
+		// 0: every batch at the same height (rare: with prune bookkeeping every commit then
+		// walks all earlier roots of that height, which is quadratic)
+		hStride := int64([]int{1, 1, 2, 1, 1, 2, 1, 1, 2, 1, 1, 0}[r.Intn(12)])
 		noiseRate := int64([]int{0, 2, 5, 8}[r.Intn(4)]) // out of 10
 		replay := int64(r.Intn(3))                       // 0 reopen, 1 crash, 2 reopen and flip the mode
 		pruneH := int64(0)
@@ -147,7 +149,11 @@ func (c02) Generate(prop string, r *simrt.RNG, tier string, run int) *simrt.Scen
 				replay = 0
 			}
 		}
-		sc.Ops = append(sc.Ops, simrt.Op{K: "replica", I: []int64{bits, mode, cache, hOff, hStride, int64(r.U64() >> 1), noiseRate, replay, pruneH, tk, noMemSet}})
+		realMem := int64(0)
+		if bits&BitMemTree != 0 && r.Chance(1, 24) {
+			realMem = 1
+		}
+		sc.Ops = append(sc.Ops, simrt.Op{K: "replica", I: []int64{bits, mode, cache, hOff, hStride, int64(r.U64() >> 1), noiseRate, replay, pruneH, tk, noMemSet, realMem}})
 	}
 	return sc
 }
@@ -167,6 +173,7 @@ func specOf(op *simrt.Op) replicaSpec {
 	cfg.Cache = int(op.Int(2))
 	cfg.PruneHeight = int32(op.Int(8))
 	cfg.TkLen = int32(op.Int(9))
+	cfg.RealMemInit = op.Int(11) == 1
 	s := replicaSpec{cfg: cfg, mode: op.Int(1) & 1, hOff: op.Int(3), hStride: op.Int(4), noiseSeed: op.Int(5), noiseRate: op.Int(6), replay: op.Int(7), noMemSet: op.Int(10) == 1}
 	m := "set"
 	if s.mode == 1 {
